@@ -109,6 +109,10 @@ class MultiTierCache(Entity):
         # Track access counts for ON_SECOND_ACCESS policy
         self._access_counts: dict[str, int] = {}
 
+        # Consistency bookkeeping for operations that overlap in simulated time
+        self._key_epoch: dict[str, int] = {}  # bumped when a put/delete of the key starts or returns
+        self._inflight_writes: dict[str, int] = {}  # puts/deletes of the key that have not returned yet
+
         # Statistics
         self._reads = 0
         self._writes = 0
@@ -181,23 +185,26 @@ class MultiTierCache(Entity):
         for tier_idx, tier in enumerate(self._tiers):
             # Check if tier has the key cached
             if hasattr(tier, "contains_cached") and tier.contains_cached(key):
+                epoch = self._key_epoch.get(key, 0)
                 value = yield from tier.get(key)
                 if value is not None:
                     self._tier_hits[tier_idx] = self._tier_hits.get(tier_idx, 0) + 1
 
                     # Promote to higher tier if applicable
-                    if tier_idx > 0:
+                    if tier_idx > 0 and self._fill_allowed(key, epoch):
                         self._maybe_promote(key, value, tier_idx)
 
                     return value
 
         # Not in any cache - fetch from backing store
+        epoch = self._key_epoch.get(key, 0)
         value = yield from self._backing_store.get(key)
 
         if value is not None:
             self._backing_store_hits += 1
             # Cache in appropriate tier(s)
-            self._cache_value(key, value)
+            if self._fill_allowed(key, epoch):
+                self._cache_value(key, value)
         else:
             self._misses += 1
 
@@ -216,19 +223,28 @@ class MultiTierCache(Entity):
             Write latency.
         """
         self._writes += 1
+        self._begin_write(key)
+        try:
+            # Write to backing store
+            yield from self._backing_store.put(key, value)
 
-        # Write to backing store
-        yield from self._backing_store.put(key, value)
+            # Update L1 cache (highest priority)
+            if self._tiers:
+                # Invalidate from all tiers first
+                for tier in self._tiers:
+                    if hasattr(tier, "invalidate"):
+                        tier.invalidate(key)
 
-        # Update L1 cache (highest priority)
-        if self._tiers:
-            # Invalidate from all tiers first
-            for tier in self._tiers:
-                if hasattr(tier, "invalidate"):
-                    tier.invalidate(key)
+                # Write to L1
+                yield from self._tiers[0].put(key, value)
 
-            # Write to L1
-            yield from self._tiers[0].put(key, value)
+                # A lower tier that is also read directly may have re-filled the key
+                # from the backing store while the write was in flight.
+                for tier in self._tiers[1:]:
+                    if hasattr(tier, "invalidate"):
+                        tier.invalidate(key)
+        finally:
+            self._end_write(key)
 
     def delete(self, key: str) -> Generator[float, None, bool]:
         """Delete a key from all tiers and backing store.
@@ -243,15 +259,24 @@ class MultiTierCache(Entity):
             True if key existed anywhere.
         """
         existed = False
+        self._begin_write(key)
+        try:
+            # Remove from all tiers
+            for tier in self._tiers:
+                if hasattr(tier, "invalidate"):
+                    tier.invalidate(key)
+                    existed = True
 
-        # Remove from all tiers
-        for tier in self._tiers:
-            if hasattr(tier, "invalidate"):
-                tier.invalidate(key)
-                existed = True
+            # Remove from backing store
+            store_existed = yield from self._backing_store.delete(key)
 
-        # Remove from backing store
-        store_existed = yield from self._backing_store.delete(key)
+            # A tier that is also read directly may have re-filled the key from the
+            # backing store while the delete was in flight.
+            for tier in self._tiers:
+                if hasattr(tier, "invalidate"):
+                    tier.invalidate(key)
+        finally:
+            self._end_write(key)
 
         # Clean up access tracking
         self._access_counts.pop(key, None)
@@ -274,6 +299,25 @@ class MultiTierCache(Entity):
             if hasattr(tier, "invalidate_all"):
                 tier.invalidate_all()
         self._access_counts.clear()
+
+    def _begin_write(self, key: str) -> None:
+        """A put or delete of the key starts."""
+        self._key_epoch[key] = self._key_epoch.get(key, 0) + 1
+        self._inflight_writes[key] = self._inflight_writes.get(key, 0) + 1
+
+    def _end_write(self, key: str) -> None:
+        """A put or delete of the key returns."""
+        self._key_epoch[key] = self._key_epoch.get(key, 0) + 1
+        self._inflight_writes[key] -= 1
+
+    def _fill_allowed(self, key: str, epoch: int) -> bool:
+        """Whether a value read from a lower tier or the backing store may be put into L1.
+
+        If a put or delete of the key started or returned after the read was issued,
+        or one is still in flight, the value may already be out of date: installing
+        it in L1 would shadow the newer write for every later read.
+        """
+        return self._key_epoch.get(key, 0) == epoch and not self._inflight_writes.get(key, 0)
 
     def _should_promote(self, key: str) -> bool:
         """Check if a key should be promoted to a higher tier."""
